@@ -58,6 +58,7 @@ class Env:
     def __init__(self):
         self.armed = 0
         self.soft_only = False
+        self.tie_views = False
         self.clock = 10
         self.rec = plans.Rec()
         self.cut_at = None       # index of the event at which to raise Cut
@@ -297,7 +298,9 @@ def build_cache(spec, env):
                 b.ver[target] = b.ver.get(target, 0) + 1
                 b.payload[target] = value
                 st = b.stores[target]
-                st.value, st.mtime = ("s", target, b.ver[target]), env.tick()
+                # a view of the same file has the SAME modified time as the stored value (every other history: a tie between a
+                # dependent source and what it depends on must not make it out of date); else a time of its own, right after
+                st.value, st.mtime = ("s", target, b.ver[target]), (self.mtime if env.tie_views else env.tick())
                 env.rec.add("write", target, st.value, st.mtime)
                 env.event("write-end", self.key)
         Feeding.__name__ = Feeding.__qualname__ = base.__name__
@@ -519,6 +522,7 @@ def run_history(spec, hseed, steps, driver, props, mode="prim", stress=False):
     BASE = FUTURE if hseed % 4 == 3 else PAST
     rng = random.Random(hseed)
     env = Env()
+    env.tie_views = hseed % 2 == 0
     b = build_cache(spec, env)
     viol, dis = [], []
     stats = {"ops": 0, "runs_ok": 0, "runs_cut": 0, "runs_failed": 0, "updates": 0, "deletes": 0, "writes": 0,
